@@ -504,6 +504,55 @@ def check_seek(ctx, F):
 
 # ---------------------------------------------------------------- clause 5/6
 
+def check_into_reversed(ctx, F):
+    """into_reversed mirrors the position on every path: pos' = len(buf) - pos (and reverses the data unconditionally)."""
+    bs = [b for b in F.bodies if b.promoted is None and b.name == 'into_reversed' and b.self_adt == CURSOR and b.dk == 'AssocFn']
+    key = 'R6/into-reversed-mirrors/' + CURSOR
+    role = 'into_reversed mirrors the position (pos\' = len - pos) and reverses the data on every path'
+    if not bs:
+        ctx.bad('R6', role, CURSOR, 'Cursor::into_reversed not found (public anchor missing)', key=key)
+        return
+    b = bs[0]
+    ev, paths = rules.evaluate(b)
+    ctx.touch(b)
+    base = cursor_base(b)
+    bad = None
+    n = 0
+    for r in paths or []:
+        if r.end != 'return':
+            continue
+        n += 1
+        posf = ev.final_read(r, base + (POS,))
+        want = sym.mk_bin('Sub', sym.mk_len(('in', base + (BUF,))), ('in', base + (POS,)))
+        if not effects_affine_eq(posf, want):
+            bad = 'a path leaves pos\' = %s (expected len(buf) - pos): reads/writes after the reversal address the wrong cell' % sym.show(posf)[:80]
+        revs = [e for e in r.events if e['kind'] == 'call' and e['name'] == 'reverse']
+        if len(revs) != 1:
+            bad = bad or 'a path calls slice::reverse %d times' % len(revs)
+    if bad or not n:
+        ctx.bad('R6', role, b.defpath, bad or 'no return path', key=key, loc=rules.loc(b))
+    else:
+        ctx.ok('R6', role, b.defpath, '%d path(s): pos\' = len - pos, one reverse()' % n, key=key)
+    # Reverse<Cursor>::into_reversed = self.0.into_reversed().0
+    rb = [x for x in F.bodies if x.promoted is None and x.name == 'into_reversed' and x.self_adt == REVERSE]
+    k2 = 'R4/into-reversed-delegates/' + REVERSE
+    if rb:
+        ev2, p2 = rules.evaluate(rb[0])
+        ok = False
+        for r in p2 or []:
+            calls = [e for e in r.events if e['kind'] == 'call' and e['name'] == 'into_reversed']
+            ok = len(calls) == 1 and r.ret is not None and sym.contains(r.ret, lambda y: y == calls[0]['result'])
+        (ctx.ok if ok else ctx.bad)('R4', 'Reverse<Cursor>::into_reversed unwraps and reverses the inner cursor once', rb[0].defpath, 'self.0.into_reversed().0' if ok else 'not a single delegation', key=k2)
+
+
+def effects_affine_eq(a, b):
+    fa, fb = sym.affine(a), sym.affine(b)
+    if fa is None or fb is None:
+        return a == b
+    d = sym.affine_sub(fa, fb)
+    return not d[0] and d[1] == 0
+
+
 def check_sticky_and_delegation(ctx, F):
     # adapters hold a Fuse
     for name in ('backends::FallibleIteratorReadWords', 'backends::InfallibleIteratorReadWords'):
@@ -628,6 +677,7 @@ def run(ctx):
         check_invariant(ctx, F)
         check_contracts(ctx, F)
         check_seek(ctx, F)
+        check_into_reversed(ctx, F)
         check_sticky_and_delegation(ctx, F)
     ctx.assume('SafeBuf contract: as_ref()/as_mut() of a SafeBuf never shrink (unsafe trait, implementors are std types only; checked under C20)')
     ctx.assume('Rust aliasing: a callee can only mutate what it receives by &mut; `&mut [T]` cannot change a slice length')
